@@ -12,8 +12,9 @@
 EXTENDS CyclesDef, CycleMapsDef
 
 CONSTANTS MaxOps, Fam,
-          Focus     \* TRUE: a reduced operation alphabet (re-computation of a metric used by a selection, re-selection,
-                    \* chain timings, subset export) explored to a greater depth
+          Focus     \* 0: the full alphabet.  1: a reduced alphabet (re-computation of a metric used by a selection, re-selection,
+                    \* chain timings, subset export) explored to a greater depth.  2: starting after compute_cycle_timings, two
+                    \* different selections / chain timings / the same condition on chain_position evaluated again and again
 
 \* phase series (lattice units, M = 24), one per family; every cycle but possibly the last ends beyond 3/2 pi
 Phase == CASE Fam = 1 -> <<2, 8, 14, 22,  2, 9, 15, 22,  1, 9, 16, 23,  3, 12, 21>>
@@ -48,7 +49,8 @@ Names == <<"is_good", "m1", "m2", "m3", "start_sample", "stop_sample", "duration
 NameSet == {Names[i] : i \in 1..Len(Names)}
 Unset == <<>>
 
-\* condition lists: <<name, comparator, twice the literal>>
+\* condition lists: <<name, comparator, twice the literal>>; a comparator ending in "+" compares with the literal PLUS a
+\* tiny positive amount (written 4.000001 in the condition string): no integer metric equals such a literal
 Conds == << << <<"is_good", "==", 2>> >>,
             << <<"duration", ">=", 8>> >>,
             << <<"duration", "<", 8>>, <<"is_good", "!=", 0>> >>,
@@ -59,9 +61,13 @@ Conds == << << <<"is_good", "==", 2>> >>,
             << <<"chain_ind", ">", -2>> >>,
             << <<"duration", ">", 7>> >>,
             << <<"m1", ">", 20>> >>,
-            << <<"m1", "<=", 21>>, <<"duration", "==", 8>> >> >>
+            << <<"m1", "<=", 21>>, <<"duration", "==", 8>> >>,
+            << <<"chain_position", "==", 0>> >>,
+            << <<"duration", "==+", 8>> >>,
+            << <<"duration", "!=+", 8>>, <<"start_sample", "<=+", 16>>, <<"start_sample", ">+", 0>> >> >>
 Cmp(op, a2, l2) == CASE op = "==" -> a2 = l2 [] op = "!=" -> a2 # l2 [] op = "<" -> a2 < l2
                      [] op = "<=" -> a2 <= l2 [] op = ">" -> a2 > l2 [] op = ">=" -> a2 >= l2
+                     [] op = "==+" -> FALSE [] op = "!=+" -> TRUE [] op = "<=+" -> a2 <= l2 [] op = ">+" -> a2 > l2
 
 VARIABLES metrics,     \* [NameSet -> per-cycle sequence | Unset]
           picked,      \* index into Conds of the current selection, 0 = none
@@ -70,12 +76,20 @@ VARIABLES metrics,     \* [NameSet -> per-cycle sequence | Unset]
           hist
 vars == <<metrics, picked, subset, chain, lastExport, hist>>
 
-Usable(cs) == \A k \in 1..Len(cs) : metrics[cs[k][1]] # Unset /\ \A c1 \in 1..K : metrics[cs[k][1]][c1] # Missing
+\* chain metrics are integers with a literal -1 outside every chain (an ordinary value); the others hold NaN where missing
+ChainNames == {"chain_ind", "chain_start", "chain_end", "chain_len_samples", "chain_len_cycles", "chain_position"}
+Usable(cs) == \A k \in 1..Len(cs) : /\ metrics[cs[k][1]] # Unset
+                                      /\ (cs[k][1] \in ChainNames \/ \A c1 \in 1..K : metrics[cs[k][1]][c1] # Missing)
 Matching(cs) == [c1 \in 1..K |-> \A k \in 1..Len(cs) : Cmp(cs[k][2], 2 * metrics[cs[k][1]][c1], cs[k][3])]
 Good1(c1) == IF Good(Phase, Samp(c1 - 1), PEdge) THEN 1 ELSE 0
 
-Init == /\ metrics = [n \in NameSet |-> IF n = "is_good" THEN [c1 \in 1..K |-> Good1(c1)] ELSE Unset]
-        /\ picked = 0 /\ subset = <<>> /\ chain = <<>> /\ lastExport = <<>> /\ hist = <<>>
+Init == /\ metrics = [n \in NameSet |-> CASE n = "is_good" -> [c1 \in 1..K |-> Good1(c1)]
+                                            [] Focus = 2 /\ n = "start_sample" -> PerCycle("cycle", "first", IdxVec)
+                                            [] Focus = 2 /\ n = "stop_sample" -> PerCycle("cycle", "last", IdxVec)
+                                            [] Focus = 2 /\ n = "duration" -> PerCycle("cycle", "len", IdxVec)
+                                            [] OTHER -> Unset]
+        /\ picked = 0 /\ subset = <<>> /\ chain = <<>> /\ lastExport = <<>>
+        /\ hist = IF Focus = 2 THEN << <<"timings", "-", "-", "-", "-">> >> ELSE <<>>
 Bound == Len(hist) < MaxOps
 Op(o) == hist' = Append(hist, o)
 SetM(n, v) == metrics' = [metrics EXCEPT ![n] = v]
@@ -125,7 +139,10 @@ FullNext == \/ \E n \in {"m1", "m2"} : \E v \in {"idx", "val"} : \E f \in {"sum"
         \/ ComputeTimings \/ ComputeChainTimings
         \/ \E j \in 1..Len(Conds) : PickSubset(j) \/ Export("conds", j)
         \/ Export("all", 0) \/ Export("subset", 0)
-Next == IF Focus THEN FocusNext ELSE FullNext
+Focus2Next == \/ ComputeChainTimings
+              \/ \E j \in {2, 4} : PickSubset(j)
+              \/ Export("conds", 12)
+Next == CASE Focus = 1 -> FocusNext [] Focus = 2 -> Focus2Next [] OTHER -> FullNext
 Spec == Init /\ [][Next]_vars
 
 \* C15
